@@ -39,10 +39,11 @@ import (
 	"sort"
 	"strings"
 	"testing"
+	"time"
 
 	"github.com/containernetworking/cni/pkg/skel"
-	"github.com/containernetworking/cni/pkg/types/create"
 	cniv1 "github.com/containernetworking/cni/pkg/types/100"
+	"github.com/containernetworking/cni/pkg/types/create"
 	v3 "github.com/projectcalico/api/pkg/apis/projectcalico/v3"
 	metav1 "k8s.io/apimachinery/pkg/apis/meta/v1"
 	"pgregory.net/rapid"
@@ -181,8 +182,14 @@ func (w *c38World) cmdArgs(c *c38Container, o c38ConfOpts, ip string) *skel.CmdA
 // ---------------------------------------------------------------------------------------
 // world
 
+type c38TB interface {
+	Fatalf(format string, args ...any)
+}
+
 type c38World struct {
-	t        *rapid.T
+	t        c38TB
+	rt       *rapid.T // nil in the deterministic confirm tests
+	rec      *ev.Recorder
 	store    *memds.Store
 	sched    *memds.Scheduler
 	apiCfg   apiconfig.CalicoAPIConfig
@@ -194,8 +201,8 @@ type c38World struct {
 	ccount   map[string]int
 }
 
-func c38NewWorld(t *rapid.T, lockFile string, bs4, bs6 int, strict bool) *c38World {
-	w := &c38World{t: t, store: memds.NewStore(), lockFile: lockFile, classes: map[string]bool{}, ccount: map[string]int{}}
+func c38NewWorld(t c38TB, rt *rapid.T, lockFile string, bs4, bs6 int, strict bool) *c38World {
+	w := &c38World{t: t, rt: rt, store: memds.NewStore(), lockFile: lockFile, classes: map[string]bool{}, ccount: map[string]int{}}
 	w.sched = memds.NewScheduler(w.store)
 	w.apiCfg = *apiconfig.NewCalicoAPIConfig()
 	w.apiCfg.Spec.DatastoreType = apiconfig.EtcdV3
@@ -334,8 +341,8 @@ func (w *c38World) dump() string {
 	}
 	tr := w.sched.Trace()
 	from := 0
-	if len(tr) > 120 {
-		from = len(tr) - 120
+	if len(tr) > 45 {
+		from = len(tr) - 45
 	}
 	fmt.Fprintf(&sb, "datastore calls (release order, last %d of %d):\n", len(tr)-from, len(tr))
 	for i := from; i < len(tr); i++ {
@@ -356,28 +363,47 @@ func (w *c38World) violation(format string, a ...any) {
 // fault plan and the scheduled execution of one plugin invocation
 
 type c38Fault struct {
-	Kind string // error | conflict | crash-before | crash-after
-	Nth  int    // index among the invocation's datastore calls (conflict: among its CAS calls)
+	Kind string // error | conflict | crash-before | crash-after | error-after (lost reply)
+	Nth  int    // index among the invocation's datastore calls (conflict: among its CAS calls; crash-after: among its writes)
 }
 
 func (f c38Fault) String() string { return fmt.Sprintf("%s@%d", f.Kind, f.Nth) }
 
-func c38DrawPlan(t *rapid.T, label string, maxCall, maxCAS int) []c38Fault {
+// c38LostReplies: also inject lost replies (the write lands but the plugin is told it failed, e.g.
+// a datastore timeout after commit).  VERIF_C38_LOSTREPLY=0 turns them off (development only).
+var c38LostReplies = os.Getenv("VERIF_C38_LOSTREPLY") != "0"
+
+// c38SigLostReplyAssign is the signature of a known finding (see TestVerifC38ConfirmLostReplyLeak):
+// a lost reply on the IPAM block write by which an ADD claims its address.  When the driver lists
+// it as known the generator does not inject exactly that fault (counted as excluded).
+const c38SigLostReplyAssign = "c38-lost-reply-on-assign-block-write-leaks-address"
+
+func c38DrawPlan(t *rapid.T, label string, del bool, maxCall, maxWrite, maxCAS int) []c38Fault {
 	n := 0
+	none, one := 35, 80
+	if del {
+		none, one = 25, 75
+	}
 	switch x := rapid.IntRange(0, 99).Draw(t, label+".nfaults%"); {
-	case x < 35:
-	case x < 80:
+	case x < none:
+	case x < one:
 		n = 1
 	default:
 		n = 2
 	}
 	var plan []c38Fault
 	for i := 0; i < n; i++ {
-		k := rapid.SampledFrom([]string{"error", "error", "error", "conflict", "conflict", "crash-before", "crash-after"}).
-			Draw(t, fmt.Sprintf("%s.fault%d.kind", label, i))
+		kinds := []string{"error", "error", "error", "conflict", "conflict", "crash-before", "crash-after"}
+		if c38LostReplies {
+			kinds = append(kinds, "error-after", "error-after")
+		}
+		k := rapid.SampledFrom(kinds).Draw(t, fmt.Sprintf("%s.fault%d.kind", label, i))
 		hi := maxCall
-		if k == "conflict" {
+		switch k {
+		case "conflict":
 			hi = maxCAS
+		case "crash-after", "error-after":
+			hi = maxWrite
 		}
 		plan = append(plan, c38Fault{Kind: k, Nth: c38Uniform(t, fmt.Sprintf("%s.fault%d.call", label, i), hi)})
 	}
@@ -393,13 +419,20 @@ func c38Uniform(t *rapid.T, label string, hi int) int {
 	return int((uint64(x) * 2654435769 >> 7) % uint64(hi+1))
 }
 
+// c38IsAssignBlockWrite: an ADD's own (main goroutine) compare-and-swap update of an IPAM block,
+// i.e. the write that records the new address (the rollback release runs in a child goroutine).
+func c38IsAssignBlockWrite(add bool, c *memds.Call) bool {
+	return add && !c.Child && c.Method == "Update" && strings.Contains(c.Path, "/ipam/v2/assignment/")
+}
+
 type c38Outcome struct {
-	Err      error
-	Crashed  bool
-	Stdout   []byte
-	Calls    int
-	Injected []string // faults that actually hit a call
-	ErrFault bool     // an injected error or crash hit a call
+	Err       error
+	Crashed   bool
+	Stdout    []byte
+	Calls     int
+	Injected  []string // faults that actually hit a call
+	Positions []int    // the call index each of them hit
+	ErrFault  bool     // an injected error or crash hit a call
 }
 
 func (w *c38World) runPlugin(label string, add bool, args *skel.CmdArgs, plan []c38Fault) *c38Outcome {
@@ -438,18 +471,29 @@ func (w *c38World) runPlugin(label string, add bool, args *skel.CmdArgs, plan []
 	})
 	opCh <- op
 
-	nCall, nCAS := 0, 0
+	nCall, nCAS, nWrite, stalls := 0, 0, 0, 0
 	for {
 		calls, err := w.sched.Quiesce()
 		if err != nil {
 			t.Fatalf("HARNESS-GAP: %v", err)
 		}
 		if len(calls) == 0 {
-			break
+			if op.Done() {
+				break
+			}
+			// Quiesce judges "nothing can move" from goroutine states; a plugin goroutine that is
+			// momentarily off-CPU for another reason (GC assist, a mutex, file I/O) looks the same
+			// for an instant.  The plugin cannot deadlock here (one invocation at a time), so wait.
+			stalls++
+			if stalls > 2000 {
+				t.Fatalf("HARNESS-GAP: plugin invocation %s neither finished nor parked at a datastore call\n%s", id, w.dump())
+			}
+			time.Sleep(time.Millisecond)
+			continue
 		}
 		idx := 0
-		if len(calls) > 1 {
-			idx = rapid.IntRange(0, len(calls)-1).Draw(t, "pick")
+		if len(calls) > 1 && w.rt != nil {
+			idx = rapid.IntRange(0, len(calls)-1).Draw(w.rt, "pick")
 		}
 		c := calls[idx]
 		f := memds.FaultNone
@@ -468,12 +512,23 @@ func (w *c38World) runPlugin(label string, add bool, args *skel.CmdArgs, plan []
 					f = memds.FaultCrashBefore
 				}
 			case "crash-after":
-				if pf.Nth == nCall {
-					if c.Write {
-						f = memds.FaultCrashAfter
-					} else {
-						f = memds.FaultCrashBefore
+				if c.Write && pf.Nth == nWrite {
+					f = memds.FaultCrashAfter
+				}
+			case "error-after":
+				if c.Write && pf.Nth == nWrite {
+					f = memds.FaultErrorAfter
+					if c38IsAssignBlockWrite(add, c) && ev.Known(c38SigLostReplyAssign) {
+						// known finding: exactly this fault is left out of the generation
+						f = memds.FaultNone
+						if w.rec != nil {
+							w.rec.Excluded(c38SigLostReplyAssign)
+						}
 					}
+				}
+			case "lost-reply-on-assign-block-write": // confirm test only
+				if c38IsAssignBlockWrite(add, c) {
+					f = memds.FaultErrorAfter
 				}
 			}
 			if f != memds.FaultNone {
@@ -482,6 +537,7 @@ func (w *c38World) runPlugin(label string, add bool, args *skel.CmdArgs, plan []
 		}
 		if f != memds.FaultNone {
 			out.Injected = append(out.Injected, f.String())
+			out.Positions = append(out.Positions, nCall)
 			if f != memds.FaultConflict {
 				out.ErrFault = true
 			}
@@ -489,6 +545,9 @@ func (w *c38World) runPlugin(label string, add bool, args *skel.CmdArgs, plan []
 		nCall++
 		if c.CAS {
 			nCAS++
+		}
+		if c.Write {
+			nWrite++
 		}
 		w.sched.Release(c, f)
 	}
@@ -571,17 +630,17 @@ func c38DrawStep(t *rapid.T, i int) c38Step {
 		// histogram calls-add:*), so that most drawn positions land on a real call
 		switch s.Conf.Mode {
 		case "dual":
-			s.Faults = c38DrawPlan(t, label, 35, 7)
+			s.Faults = c38DrawPlan(t, label, false, 35, 9, 7)
 		case "v4", "v6":
-			s.Faults = c38DrawPlan(t, label, 18, 4)
+			s.Faults = c38DrawPlan(t, label, false, 18, 5, 4)
 		default:
-			s.Faults = c38DrawPlan(t, label, 11, 3)
+			s.Faults = c38DrawPlan(t, label, false, 11, 4, 3)
 		}
 	case "del":
 		s.C = pickC()
 		s.Conf = c38DrawConf(t, label)
 		s.Conf.Mode = rapid.SampledFrom([]string{"dual", "v4", "v6"}).Draw(t, label+".mode")
-		s.Faults = c38DrawPlan(t, label, 22, 5)
+		s.Faults = c38DrawPlan(t, label, true, 17, 5, 5)
 	case "fill":
 		s.Fam = rapid.SampledFrom([]int{6, 6, 4}).Draw(t, label+".family")
 		s.Leave = rapid.SampledFrom([]int{0, 0, 0, 1}).Draw(t, label+".leave-free")
@@ -758,7 +817,7 @@ func TestVerifC38AddDel(t *testing.T) {
 	defer func() { os.Stderr = oldStderr; _ = devnull.Close(); ev.Quiet() }()
 
 	rec := ev.New("C38", "plugin",
-		"rapid draws 4-10 steps (ADD / DEL of container A or B in v4, v6, dual-stack or explicit-IP mode, pool fill / unfill by a foreign handle, a v2.x-era allocation under the workload-id handle) and for every ADD/DEL a fault plan (0-2 of: transient error, CAS conflict, crash before/after, at a uniformly drawn datastore call); two fault-free DELs per container close the history. Non-trivial: at least one ADD succeeded and was later deleted, and the history contains an injected fault, a failed/partial/crashed ADD followed by DEL, a repeated DEL, a dual-stack half-success or a legacy-handle allocation. Distinct: sequence of (step kind, container, mode, outcome, injected fault kinds).",
+		"rapid draws 2-10 (thorough: 2-14) steps (ADD / DEL of container A or B in v4, v6, dual-stack or explicit-IP mode, pool fill / unfill by a foreign handle, a v2.x-era allocation under the workload-id handle) and for every ADD/DEL a fault plan (0-2 of: transient error, CAS conflict, crash before/after, at a uniformly drawn datastore call); two fault-free DELs per container close the history. Non-trivial: at least one ADD succeeded and was later deleted, and the history contains an injected fault, a failed/partial/crashed ADD followed by DEL, a repeated DEL, a dual-stack half-success or a legacy-handle allocation. Distinct: sequence of (step kind, container, mode, outcome, injected fault kinds).",
 		"verifkit/memds implements the backend contract (CAS by revision, JSON round trip)",
 		"the plugin's calls are sequential (host-wide IPAM lock); no concurrent plugins or nodes",
 		"no Kubernetes / KubeVirt client paths (no kubeconfig, policy type not k8s, pod names without virt-launcher-)",
@@ -770,7 +829,8 @@ func TestVerifC38AddDel(t *testing.T) {
 		bs4 := rapid.SampledFrom([]int{30, 30, 29}).Draw(t, "v4-block-size")
 		bs6 := rapid.SampledFrom([]int{126, 126, 125}).Draw(t, "v6-block-size")
 		strict := rapid.IntRange(0, 3).Draw(t, "strict-affinity%4") == 0
-		w := c38NewWorld(t, dir+"/ipam.lock", bs4, bs6, strict)
+		w := c38NewWorld(t, t, dir+"/ipam.lock", bs4, bs6, strict)
+		w.rec = rec
 		defer func() {
 			if err := w.sched.Shutdown(); err != nil {
 				t.Fatalf("HARNESS-GAP: %v", err)
@@ -790,7 +850,7 @@ func TestVerifC38AddDel(t *testing.T) {
 			w.class("strict-affinity")
 		}
 
-		nSteps := rapid.IntRange(4, ev.Scale(10, 14)).Draw(t, "steps")
+		nSteps := rapid.IntRange(2, ev.Scale(10, 14)).Draw(t, "steps")
 		var shape []string
 		nontrivialSignal := false
 		deletedAfterOK := false
@@ -798,8 +858,9 @@ func TestVerifC38AddDel(t *testing.T) {
 		doDel := func(c *c38Container, s c38Step, when string, final bool) {
 			o := w.runPlugin("del-"+c.Label, false, w.cmdArgs(c, s.Conf, ""), s.Faults)
 			w.class(fmt.Sprintf("calls-del:%02d+", o.Calls/5*5))
-			for _, f := range o.Injected {
+			for i, f := range o.Injected {
 				w.class("fault-del:" + f)
+				w.class(fmt.Sprintf("fault-del-at-call:%02d", o.Positions[i]))
 			}
 			if o.ErrFault {
 				c.clean = false
@@ -828,8 +889,6 @@ func TestVerifC38AddDel(t *testing.T) {
 				return
 			}
 			// success
-			legacyHeldBefore := false
-			_ = legacyHeldBefore
 			w.checkDelSuccess(c, when)
 			if c.pendingFail {
 				w.class("del-after-failed-add")
@@ -878,8 +937,9 @@ func TestVerifC38AddDel(t *testing.T) {
 				before := w.held(c.primary())
 				o := w.runPlugin("add-"+c.Label, true, w.cmdArgs(c, s.Conf, s.IP), s.Faults)
 				w.class(fmt.Sprintf("calls-add:%02d+", o.Calls/5*5))
-				for _, f := range o.Injected {
+				for i, f := range o.Injected {
 					w.class("fault-add:" + f)
+					w.class(fmt.Sprintf("fault-add-at-call:%02d", o.Positions[i]))
 				}
 				if o.ErrFault {
 					c.clean = false
@@ -965,4 +1025,55 @@ func TestVerifC38AddDel(t *testing.T) {
 		hist := append([]string(nil), w.log...)
 		rec.SizedCase(nontrivial, strings.Join(shape, " "), len(shape), func() any { return hist }, cls...)
 	})
+}
+
+// TestVerifC38ConfirmLostReplyLeak is the deterministic reproducer of the known finding
+// c38SigLostReplyAssign.  It FAILS while the defect is present.
+//
+// One fault: the reply to the block write of an explicit-IP ADD is lost (the write lands, the
+// caller gets a datastore error).  AssignIP then "undoes" the handle increment, which deletes the
+// handle record although the block now records the address under that handle; the ADD fails, the
+// runtime calls DEL, DEL finds no handle record, reports success - and the address stays
+// allocated to the container's handle.
+func TestVerifC38ConfirmLostReplyLeak(t *testing.T) {
+	ev.Quiet()
+	c38EnsureUpgradeMarker(t)
+	dir, err := os.MkdirTemp("", "verif-c38-")
+	if err != nil {
+		t.Fatalf("HARNESS-GAP: %v", err)
+	}
+	defer os.RemoveAll(dir)
+	devnull, err := os.OpenFile(os.DevNull, os.O_WRONLY, 0)
+	if err != nil {
+		t.Fatalf("HARNESS-GAP: %v", err)
+	}
+	oldStderr := os.Stderr
+	os.Stderr = devnull
+	defer func() { os.Stderr = oldStderr; _ = devnull.Close(); ev.Quiet(); utils.VerifClientOverride = nil }()
+
+	w := c38NewWorld(t, nil, dir+"/ipam.lock", 30, 126, false)
+	c := &c38Container{Label: "A", CID: "c38cida", clean: true}
+	s := c38Step{Kind: "add", Conf: c38ConfOpts{CNIVersion: "1.0.0", Mode: "ip4"}, IP: "10.38.0.1",
+		Faults: []c38Fault{{Kind: "lost-reply-on-assign-block-write"}}}
+	w.logf("%s", s)
+	add := w.runPlugin("add-A", true, w.cmdArgs(c, s.Conf, s.IP), s.Faults)
+	w.logf("    -> err=%v calls=%d injected=%v; handle %s holds %v, handle record %q", add.Err, add.Calls, add.Injected,
+		c.primary(), w.held(c.primary()), w.handleRecord(c.primary()))
+	if len(add.Injected) == 0 {
+		t.Fatalf("HARNESS-GAP: the ADD made no block write to lose the reply of\n%s", w.dump())
+	}
+	if add.Err != nil {
+		w.logf("DEL cA (no faults)")
+		del := w.runPlugin("del-A", false, w.cmdArgs(c, c38ConfOpts{CNIVersion: "1.0.0", Mode: "v4"}, ""), nil)
+		w.logf("    -> err=%v", del.Err)
+		if del.Err == nil {
+			if held := w.held(c.primary()); len(held) != 0 {
+				t.Errorf("the ADD failed (%v), the DEL that followed succeeded, but handle %s still holds %v\n%s",
+					add.Err, c.primary(), held, w.dump())
+			}
+		}
+	}
+	if err := w.sched.Shutdown(); err != nil {
+		t.Fatalf("HARNESS-GAP: %v", err)
+	}
 }
